@@ -698,6 +698,10 @@ func runRvole(d desc) outcome {
 				dl = new(big.Int).Sub(hon.q, big.NewInt(1))
 			case "rand":
 				dl = new(big.Int).Add(tr.BigBelow(new(big.Int).Sub(hon.q, big.NewInt(1))), big.NewInt(1))
+			default:
+				if x, ok := new(big.Int).SetString(kd[1], 16); ok && x.Sign() > 0 {
+					dl = x
+				}
 			}
 		}
 		ts = append(ts, rvTamper{what, dl})
